@@ -906,7 +906,11 @@ def upgrade_scenario(name, bind="unix", stop_sig="TERM", worker_class="sync"):
                 srv.signal(_signal.SIGHUP, old)
                 if not wait_for(lambda: len(srv.children(old)) >= 1, 10):
                     fails.append("HUP after WINCH did not bring the old master's workers back")
-                time.sleep(0.5)
+                time.sleep(2.5)
+                # ... to stay: the configured number of workers (1), still there after a few turns of the main loop
+                if len(srv.children(old)) != 1:
+                    fails.append("after WINCH and HUP the old master has %d workers, configured: 1 (back-out does not restore the single-master state)"
+                                 % len(srv.children(old)))
             # the old master is a single master again: a new upgrade works
             srv.signal(_signal.SIGUSR2, old)
             new2 = wait_for(lambda: srv.read_pid(".2"), 15)
@@ -1011,7 +1015,7 @@ def run_real(ctx):
             ctx.violation("two real masters (python -m gunicorn): " + f, rep)
     if ctx.quick():
         scns = [("old-first", "unix", "TERM", "sync"), ("new-first", "unix", "QUIT", "sync"), ("second-usr2", "tcp", "TERM", "gthread"),
-                ("twice", "tcp", "TERM", "sync")]
+                ("twice", "tcp", "TERM", "sync"), ("winch-hup", "unix", "TERM", "sync")]
     else:
         scns = []
         for name in ("old-first", "new-first", "second-usr2", "winch-hup", "both", "twice"):
